@@ -277,7 +277,9 @@ Definition view_validity (c : comp) (p : par) (s : ust) : validity :=
   match c with
   | ConsumableBuffSkill =>
       mkV (C.available (u_cons s)) (Z.max 0 (C.tl (u_cons s))) (Some (C.stack (u_cons s)))
-  | HitLimitedPeriodic | KeydownSkill | PeriodicWithFinish => cd_validity p false s
+  | KeydownSkill =>   (* validity_in_keydown_trait: off cooldown and not already running *)
+      mkV (avail s && negb (K.running (u_kd s))) (Z.max 0 (u_cd s)) None
+  | HitLimitedPeriodic | PeriodicWithFinish => cd_validity p false s
   | _ => cd_validity p true s
   end.
 
